@@ -85,3 +85,4 @@ MANIFEST = {
     "technique": "runtime monitoring: fingerprinted-instance tracing through the real dataset/loader/baseline-wrapping path with recomputation of the attached baseline values",
     "design_ref": "DESIGN.md section 4 / C17",
 }
+MANIFEST["text"] += " Rounds 7-8: extra keys under other names than 'extra', several named validation sets whose names are not in alphabetical order."
